@@ -1,6 +1,6 @@
 """Source of MANIFEST.json (bin/mkmanifest). One entry per claimed property."""
 
-HOOK_COMMITS = ["3ccfb0e", "8690cd2", "ca367a9", "6084310"]
+HOOK_COMMITS = ["3ccfb0e", "8690cd2", "ca367a9", "6084310", "e583c88"]
 
 NOT_APPLICABLE = {}
 
@@ -49,7 +49,7 @@ CHECKS = {
                 "than its base; a forced interleaving parks a writer between unlock and slot acquisition while another transaction commits; EngineProto is model "
                 "checked for mutual exclusion, token conservation and deadlock freedom.",
         "note": ENGINE_NOTE + " Interleavings are explored at hook granularity (critical-section hand-over points); schedules are sampled (seeded yields) plus forced "
-                "interleavings, not enumerated exhaustively on the real code.",
+                "interleavings, not enumerated exhaustively on the real code. A controlled scheduler enumerates (depth-first, then at random) the interleavings of twelve small scenarios at the scheduling points (call starts and the hook points outside the engine mutex); every schedule is judged the same way.",
         "technique": "hook-recorded linearization points validated by TLC against the sequential TLA+ model; PlusCal engine protocol model checked by TLC; forced interleavings replayed on real goroutines",
     },
     "C05": {
